@@ -163,7 +163,7 @@ def main():
     res = ck.step_generate('Gen_C11', TARGETS)
     if res is not None:
         ck.step_prove('P_C11')
-    n = 300 if ck.thorough() else 60
+    n = 1500 if ck.thorough() else 60
     goals = run_cases(ck, res, n, 20 if ck.thorough() else 6)
     if res is not None:
         ck.step_interval_goals('corr', goals)
